@@ -206,6 +206,45 @@ class Interp:
         self._compare(out, mm, "concatenate")
         self.col.probe("partition_pieces", len(parts))
 
+    def op_concat_mixed(self, a, b):
+        """Concatenate two sets of the same class / namespace / width that differ in optional fields: every per-sample
+        field of the result must be either absent or aligned with the rows (never shorter / shifted)."""
+        if len(self.pool) < 2:
+            return
+        self.ops.append(("concat_mixed", dict(a=a, b=b)))
+        (oa, ma), (ob, mb) = self._src(a), self._src(b)
+        if oa is ob or ma["x"].ndim != 2 or mb["x"].ndim != 2:
+            return
+        if (ma["cls"], ma["xp"], ma["bits"], ma["x"].shape[1]) != (mb["cls"], mb["xp"], mb["bits"], mb["x"].shape[1]):
+            return
+        if str(oa.dtype) != str(ob.dtype) or list(oa.parameters) != list(ob.parameters):
+            return
+        C = self._cls(ma["cls"])
+        w = {"cls": ma["cls"], "xp": ma["xp"], "op": "concat_mixed"}
+        try:
+            out = C.concatenate([oa, ob])
+        except Exception as e:  # noqa: BLE001
+            raise Violation("c16.concat_raised", f"{ma['cls']}.concatenate of two compatible sets with different optional fields raised "
+                            f"{type(e).__name__}: {e}", {**w, "error_type": type(e).__name__})
+        n = len(ma["x"]) + len(mb["x"])
+        x = to_np(out.x)
+        if x.shape[0] != n or not np.array_equal(x, np.concatenate([ma["x"], mb["x"]]), equal_nan=True):
+            raise Violation("c16.rows", "concat_mixed: x is not the two inputs stacked", {**w, "field": "x"})
+        for k in ("log_likelihood", "log_prior", "log_q"):
+            v = getattr(out, k, None)
+            both = ma[k] is not None and mb[k] is not None
+            if v is None:
+                if both:
+                    raise Violation("c16.field_presence", f"concat_mixed: field {k} present in both inputs was dropped", {**w, "field": k})
+                continue
+            a_ = to_np(v)
+            if a_.shape[0] != n:
+                raise Violation("c16.rows", f"concat_mixed: field {k} has {a_.shape[0]} entries for {n} rows (present in "
+                                f"{'both' if both else 'only one'} of the inputs): rows and field are no longer aligned", {**w, "field": k})
+            if both and not np.array_equal(a_, np.concatenate([ma[k], mb[k]]), equal_nan=True):
+                raise Violation("c16.rows", f"concat_mixed: field {k} is not the two inputs' fields stacked", {**w, "field": k})
+        self.col.nontrivial.add(("concat_mixed", ma["cls"], ma["xp"], ma["bits"], "".join(str(int(ma[k] is not None)) + str(int(mb[k] is not None)) for k in ("log_likelihood", "log_prior", "log_q"))))
+
     def op_pickle(self, src, protocol):
         if not self.pool:
             return
@@ -257,6 +296,10 @@ def make_machine(interp_factory, workdir, col):
         @rule(src=st.integers(0, 20), cuts=st.lists(st.integers(0, 20), min_size=1, max_size=3))
         def concat_partition(self, src, cuts):
             self.do("concat_partition", src=src, cuts=cuts)
+
+        @rule(a=st.integers(0, 20), b=st.integers(0, 20))
+        def concat_mixed(self, a, b):
+            self.do("concat_mixed", a=a, b=b)
 
         @rule(src=st.integers(0, 20), protocol=st.sampled_from([2, 4, 5]))
         def pickle_hop(self, src, protocol):
